@@ -166,3 +166,14 @@ def check_integral_handler(ctx):
     texts = sorted(ast.unparse(r.value) for r in rets)
     ok = texts == sorted(["self._create_placeholder_expr(%s, 'integral')" % g.params[1], "self._create_placeholder_expr(%s, 'integral_control', refine=refine)" % g.params[1]])
     ctx.check(ok, "Stage.integral species", detail="placeholder species", expected="'integral' for grid='inf', 'integral_control' otherwise", found=texts, fi=g)
+
+
+@rule("R03.6", min_instances=30, desc="prerequisites of convergence shared with C01/C02: M equal sub-steps with running absolute time, interval wiring, per-interval collocation step and times, continuity through D for every scheme")
+def r03_6(ctx):
+    from .c01 import r01_1, r01_4
+    from .c02 import r02_3, r02_4, r02_5
+    r01_1(ctx)
+    r01_4(ctx)
+    r02_3(ctx)
+    r02_4(ctx)
+    r02_5(ctx)
